@@ -9,11 +9,9 @@ open Real
 /-- closed form used for the analysis: vt = 10 ν (√(1 + a d³) − 1)/d with a = Rsd g / (100 ν²) -/
 theorem vt_ruby_form (d Rsd nu K : ℝ) :
     heterogeneous.vt_ruby d Rsd nu K = 10 * nu / d * (Real.sqrt (1 + Rsd * (Cst.gravity : ℝ) * d ^ 3 / (100 * nu ^ 2)) - 1) := by
-  unfold heterogeneous.vt_ruby
-  simp only [Transc.rpow, Transc.npow, sci_one]
+  rw [vt_ruby_canon]
   have h05 : (0.5:ℝ) = 1 / 2 := by norm_num
   rw [h05, ← Real.sqrt_eq_rpow]
-  norm_num
 
 /-- strictly increasing in the relative submerged density -/
 theorem vt_ruby_mono_Rsd (d R1 R2 nu K : ℝ) (hd : 0 < d) (hn : 0 < nu) (h0 : 0 ≤ R1) (h12 : R1 < R2) :
